@@ -16,7 +16,7 @@ EXPLANATION = (
     "a match returns Skip / sets formatting_disabled true|false in the returned Context, and formatting_disabled "
     "makes should_format_node return Skip first. (R-RANGE(order)) NotInRange / Normal are answered only in blocks dominated by "
     "the exit of the leading-comment scan: an ignore directive wins over the formatting range. Not decided: the position of the reproduced slice in the output."
-    "Later rounds: (R-SORTGUARD member walk) the statements shown to should_format_node are the items of an iterator over the whole require group. Rounds 17-19: (R-GUARD) frozen comment tests; (R-RANGE(toggle)) check_toggle_formatting takes no decision on the formatting range.")
+    "Later rounds: (R-SORTGUARD member walk) the statements shown to should_format_node are the items of an iterator over the whole require group. Rounds 17-19: (R-GUARD) frozen comment tests; (R-RANGE(toggle)) check_toggle_formatting takes no decision on the formatting range. Round 23: (R-SKIP(walk)) no closure that threads check_toggle_formatting is driven by a short-circuiting iterator method (any / all / find / take_while ...): the toggle walk visits every member of the sequence.")
 ASSUMPTIONS = ["to_owned/clone of a full_moon node reproduces its tokens and trivia verbatim",
                "rustc MIR and Instance::try_resolve are trusted"]
 
@@ -25,4 +25,4 @@ def run(ctx):
     return [r_skip.rule_skip_edge(ctx, "C08", statuses=("Skip",)), r_skip.rule_post(ctx, "C08"),
             r_skip.rule_toggle(ctx, "C08"), r_skip.rule_sort_guard(ctx, "C08", must_block=("Skip",)),
             r_directive.rule_directive(ctx, "C08"), r_skip.rule_node_type(ctx, "C08"),
-            r_range.rule_ignore_first(ctx, "C08"), r_skip.rule_toggle_chain(ctx, "C08"), r_skip.rule_field_walkers(ctx, "C08"), r_guard.rule_guard(ctx, "C08"), r_range.rule_toggle_ignores_range(ctx, "C08")]
+            r_range.rule_ignore_first(ctx, "C08"), r_skip.rule_toggle_chain(ctx, "C08"), r_skip.rule_toggle_walk_total(ctx, "C08"), r_skip.rule_field_walkers(ctx, "C08"), r_guard.rule_guard(ctx, "C08"), r_range.rule_toggle_ignores_range(ctx, "C08")]
